@@ -1,5 +1,6 @@
 import Driver.Lapper
 import Driver.Rec
+import Driver.Lapper2
 /-!
 `bvdriver FILE` (or stdin): one case per line, answers one verdict line per case.
 -/
@@ -16,6 +17,9 @@ def handle (line : String) : String :=
       | "C16" => handleC16 inp obs
       | "C17" => handleC17 inp obs
       | "C11" => handleC11 inp obs
+      | "C18" => handleC18 inp obs
+      | "C19" => handleC19 inp obs
+      | "C20" => handleC20 inp obs
       | "C13" => handleC13 inp obs
       | "C14" => handleC14 inp obs
       | "C07" => handleC07 inp obs
